@@ -1,7 +1,7 @@
 #!/venv/bin/python
 """tools/seedrecheck.py <name>... : re-run the quick check of a filed seed (seeded/<name>/patch.diff applied to /repo,
 undone straight afterwards) and update detected / check_* in its meta.json."""
-import json, subprocess, sys, time
+import json, os, subprocess, sys, time
 V = "/verif"
 def sh(cmd):
     return subprocess.run(cmd, shell=True, capture_output=True, text=True)
@@ -22,5 +22,6 @@ for name in sys.argv[1:]:
     finally:
         sh(f"git -C /repo worktree remove --force {wt}")
     meta["detected"] = meta["check_exit"] == 1
-    json.dump(meta, open(f"{d}/meta.json", "w"), indent=1)
+    if not os.environ.get("SEEDRECHECK_NOWRITE"):       # (re-runs under other VERIF_SEED values only report)
+        json.dump(meta, open(f"{d}/meta.json", "w"), indent=1)
     print(name, "check_exit=%s" % meta["check_exit"], (meta["check_lines"] or [""])[0][:200])
